@@ -76,6 +76,11 @@ const preludeAxioms = `(assert (forall ((r Int)) (! (=> (<= r 0) (existed r)) :p
 (assert (forall ((s GStr) (lo Int) (hi Int)) (! (= (seq_of_str (str_sub s lo hi)) (seq_sub (seq_of_str s) lo hi)) :pattern ((str_sub s lo hi)))))
 (assert (forall ((q BSeq) (lo Int) (hi Int)) (! (=> (and (<= 0 lo) (<= lo hi) (<= hi (seq_len q))) (= (seq_len (seq_sub q lo hi)) (- hi lo))) :pattern ((seq_sub q lo hi)))))
 (assert (forall ((q BSeq) (lo Int) (hi Int) (i Int)) (! (=> (and (<= 0 lo) (<= lo hi) (<= hi (seq_len q)) (<= 0 i) (< i (- hi lo))) (= (seq_at (seq_sub q lo hi) i) (seq_at q (+ lo i)))) :pattern ((seq_at (seq_sub q lo hi) i)))))
+(assert (forall ((q BSeq) (n Int)) (! (=> (= n (seq_len q)) (= (seq_sub q 0 n) q)) :pattern ((seq_sub q 0 n)))))
+(assert (forall ((a (Array Int Int)) (o Int) (n Int) (lo Int) (hi Int)) (! (=> (and (<= 0 lo) (<= lo hi) (<= hi n)) (= (seq_sub (seqof a o n) lo hi) (seqof a (+ o lo) (- hi lo)))) :pattern ((seq_sub (seqof a o n) lo hi)))))
+(assert (forall ((q BSeq) (a Int) (b Int) (c Int)) (! (=> (and (<= 0 a) (<= a b) (<= b c) (<= c (seq_len q))) (= (seq_cat (seq_sub q a b) (seq_sub q b c)) (seq_sub q a c))) :pattern ((seq_cat (seq_sub q a b) (seq_sub q b c))))))
+(assert (forall ((q BSeq) (a Int)) (! (= (seq_sub q a a) seq_empty) :pattern ((seq_sub q a a)))))
+(assert (forall ((q BSeq) (n Int)) (! (=> (<= n 0) (= (seq_sub q 0 n) seq_empty)) :pattern ((seq_sub q 0 n)))))
 (assert (forall ((a Int) (b Int)) (! (=> (and (>= a 0) (>= b 0)) (and (<= 0 (band a b)) (<= (band a b) a) (<= (band a b) b))) :pattern ((band a b)))))
 (assert (forall ((a Int) (b Int)) (! (=> (and (>= a 0) (>= b 0)) (and (<= a (bor a b)) (<= b (bor a b)) (<= (bor a b) (+ a b)))) :pattern ((bor a b)))))
 `
